@@ -82,6 +82,8 @@ def run_spec(prop, spec, keep=False):
         known = runner.load_known().get(prop, {})
         keys = sorted({i['key'] for i in rep.items if not i['ok'] and i['key'] not in known})
         exp = spec['expect']
+        if spec.get('expect_silent'):
+            return dict(id=spec['id'], status='silent' if not keys else 'false-alarm', keys=keys[:12], expect=[])
         hit = all(any(x in k for k in keys) for x in exp)
         return dict(id=spec['id'], status='fired' if hit else 'missed', keys=keys[:12], expect=exp)
     finally:
@@ -101,6 +103,9 @@ def run_all(prop, R, seed=0):
             R.note('self-test stale (not a property violation): %s: %s' % (r['id'], r.get('detail')))
         elif r['status'] == 'nocompile':
             R.note('self-test mutant does not compile any more (not a property violation): %s' % r['id'])
+        elif r['status'] in ('silent', 'false-alarm'):
+            R.ob('selftest', '%s|%s' % (prop, r['id']), r['status'] == 'silent',
+                 'checker self-test: behaviour-preserving edit %s must not be reported; reported: %s' % (r['id'], r.get('keys')))
         else:
             R.ob('selftest', '%s|%s' % (prop, r['id']), r['status'] == 'fired',
                  'checker self-test: mutant %s must be reported with key(s) %s; reported: %s' % (r['id'], r.get('expect'), r.get('keys')))
@@ -117,6 +122,6 @@ if __name__ == '__main__':
             continue
         t0 = time.time()
         r = run_spec(prop, s)
-        print('%-40s %-9s %.1fs %s' % (r['id'], r['status'], time.time() - t0, r.get('keys') if r['status'] != 'fired' else ''))
+        print('%-40s %-9s %.1fs %s' % (r['id'], r['status'], time.time() - t0, r.get('keys') if r['status'] not in ('fired', 'silent') else ''))
         if r['status'] in ('stale', 'nocompile'):
             print('   ', r.get('detail'))
